@@ -915,10 +915,12 @@ func (p *ValidateTxAndPayClaimInvoiceAction) Execute(services *SwapServices, swa
 	if !ok {
 		return swap.HandleError(errors.New("tx is not valid"))
 	}
+	if swap.ClaimPreimage != "" {
+		// The claim payment already succeeded and its preimage was persisted
+		// before a restart. Never create a second payment for it.
+		return Event_ActionSucceeded
+	}
 	if !policy.AllowNewClaimPayment {
-		if swap.ClaimPreimage != "" {
-			return Event_ActionSucceeded
-		}
 		preimage, err := lc.RecoverClaimPayment(swap.OpeningTxBroadcasted.Payreq)
 		if err != nil {
 			return swap.HandleError(fmt.Errorf("recover legacy claim payment: %w", err))
